@@ -6,6 +6,13 @@ Open Scope N_scope.
 Definition then_rest (out : bytes) (rest : list step) : outcome bytes :=
   do r' <- flatten rest ; Ok (out ++ r').
 
+(* lia does not know N.min *)
+Ltac mlia :=
+  repeat match goal with
+  | H : context [N.min ?a ?b] |- _ => let E := fresh in destruct (N.min_spec a b) as [[? E]|[? E]]; rewrite E in *; clear E
+  | |- context [N.min ?a ?b] => let E := fresh in destruct (N.min_spec a b) as [[? E]|[? E]]; rewrite E in *; clear E
+  end; lia.
+
 Lemma take_drop (n : N) (b : bytes) : take n b ++ drop n b = b.
 Proof. unfold take, drop. apply firstn_skipn. Qed.
 
@@ -54,13 +61,15 @@ Proof.
       * unfold then_rest. cbn [flatten step_bytes obind].
         destruct (flatten steps); cbn [obind]; try reflexivity.
         rewrite app_assoc, take_drop. reflexivity.
-      * rewrite len_take_le by lia. lia.
+      * rewrite len_take_le by mlia. mlia.
       * cbn [length]. lia.
     + destruct (encode_loop steps (l + N.min (cap - l) (len b)) cap) as [[out' rest']| |] eqn:Hrec;
         cbn [obind] in H; try discriminate.
       injection H as <- <-.
-      assert (N.min (cap - l) (len b) = len b) as Hmin by lia.
-      destruct (IH _ cap out' rest' ltac:(lia) Hrec) as (IH1 & IH2 & IH3).
+      assert (l + len b <= cap) as Hfit by mlia.
+      assert (N.min (cap - l) (len b) = len b) as Hmin by mlia.
+      rewrite Hmin in Hrec.
+      destruct (IH _ cap out' rest' Hfit Hrec) as (IH1 & IH2 & IH3).
       split; [|split; [rewrite len_app; lia | cbn [length]; lia]].
       cbn [flatten step_bytes obind]. rewrite IH1. unfold then_rest.
       destruct (flatten rest'); cbn [obind]; try reflexivity. rewrite app_assoc. reflexivity.
@@ -69,7 +78,7 @@ Qed.
 (* the re-queued slice leaves the buffer full: the `while` condition of Encoder::encode fails *)
 Lemma Steps_requeue_exits l cap (b : bytes) :
   l <= cap -> N.min (cap - l) (len b) <? len b = true -> l + N.min (cap - l) (len b) = cap.
-Proof. intros. lia. Qed.
+Proof. intros. mlia. Qed.
 
 (* progress: with 4 free bytes and a non-empty queue a call emits something or retires a step
    (a retired step that emits nothing is an empty slice) *)
@@ -89,22 +98,77 @@ Proof.
   cbn zeta in H. destruct (N.min (cap - l) (len b) <? len b) eqn:Hpart.
   - injection H as <- <-. left. intro E0.
     assert (len (take (N.min (cap - l) (len b)) b) = 0) as E1 by (rewrite E0; reflexivity).
-    rewrite len_take_le in E1 by lia. lia.
+    rewrite len_take_le in E1 by mlia. mlia.
   - destruct (encode_loop steps (l + N.min (cap - l) (len b)) cap) as [[out' rest']| |] eqn:Hrec;
       cbn [obind] in H; try discriminate.
     injection H as <- <-. right.
-    assert (N.min (cap - l) (len b) = len b) as Hmin by lia. rewrite Hmin in Hrec.
-    destruct (N.le_gt_cases (l + len b) cap) as [Hle|Hgt]; [|lia].
+    assert (l + len b <= cap) as Hle by mlia.
+    assert (N.min (cap - l) (len b) = len b) as Hmin by mlia. rewrite Hmin in Hrec.
     destruct (encode_loop_spec steps _ cap out' rest' Hle Hrec) as (_ & _ & H3). cbn [length]. lia.
 Qed.
 
+(* ---- the drain after the loop (leading empty slice steps are retired) ---- *)
+Lemma flatten_drop_empty steps : flatten (drop_empty steps) = flatten steps.
+Proof.
+  induction steps as [|s steps IH]; [reflexivity|].
+  destruct s as [v|v|v|v|[|x b]]; try reflexivity.
+  cbn [drop_empty]. rewrite IH. cbn [flatten step_bytes obind]. destruct (flatten steps); reflexivity.
+Qed.
+Lemma length_drop_empty steps : (length (drop_empty steps) <= length steps)%nat.
+Proof.
+  induction steps as [|s steps IH]; [cbn; lia|].
+  destruct s as [v|v|v|v|[|x b]]; cbn [drop_empty length]; lia.
+Qed.
+Lemma drop_empty_idem steps : drop_empty (drop_empty steps) = drop_empty steps.
+Proof.
+  induction steps as [|s steps IH]; [reflexivity|].
+  destruct s as [v|v|v|v|[|x b]]; try reflexivity. cbn [drop_empty]. exact IH.
+Qed.
+Lemma then_rest_drop_empty out rest : then_rest out (drop_empty rest) = then_rest out rest.
+Proof. unfold then_rest. rewrite flatten_drop_empty. reflexivity. Qed.
+
+(* steps that produce no byte at all are empty slices only; the drain removes all of them *)
+Lemma flatten_nil_drop_empty steps : flatten steps = Ok [] -> drop_empty steps = [].
+Proof.
+  induction steps as [|s steps IH]; [reflexivity|]. intros H. cbn [flatten] in H.
+  destruct (step_bytes s) as [sb| |] eqn:Hs; cbn [obind] in H; try discriminate.
+  destruct (flatten steps) as [t| |]; cbn [obind] in H; try discriminate.
+  injection H as H. apply app_eq_nil in H as [-> ->].
+  destruct s as [v|v|v|v|b].
+  1-4: exfalso; assert (1 <= len (@nil N) <= 4) as Hb
+         by (eapply step_bytes_integral_le4; [|exact Hs]; intros; discriminate); rewrite len_nil in Hb; lia.
+  cbn [step_bytes] in Hs. injection Hs as ->. cbn [drop_empty]. apply IH. reflexivity.
+Qed.
+
+(* the flatten relation of one loop run needs no assumption on the fill: work happens only when l + 4 <= cap *)
+Lemma encode_loop_flatten steps l cap out rest :
+  encode_loop steps l cap = Ok (out, rest) -> flatten steps = then_rest out rest.
+Proof.
+  intros H. destruct (N.le_gt_cases l cap) as [Hle|Hgt].
+  - exact (proj1 (encode_loop_spec steps l cap out rest Hle H)).
+  - destruct steps as [|s steps].
+    + cbn in H. injection H as <- <-. reflexivity.
+    + cbn [encode_loop] in H. assert (l + 4 <=? cap = false) as E by lia. rewrite E in H.
+      injection H as <- <-. unfold then_rest. cbn [app]. destruct (flatten (s :: steps)); reflexivity.
+Qed.
+
 (* ---- statements about encode_call ---- *)
+Lemma encode_call_inv steps fill cap out rest :
+  encode_call steps fill cap = Ok (out, rest) ->
+  4 <= cap /\ exists rest0, encode_loop steps fill cap = Ok (out, rest0) /\ rest = drop_empty rest0.
+Proof.
+  unfold encode_call. destruct (cap <? 4) eqn:E; [discriminate|].
+  destruct (encode_loop steps fill cap) as [[o r0]| |]; cbn [obind]; try discriminate.
+  intros [= <- <-]. split; [lia|]. eauto.
+Qed.
+
 Lemma encode_call_prefix steps fill cap out rest :
   fill <= cap -> 4 <= cap -> encode_call steps fill cap = Ok (out, rest) ->
   flatten steps = then_rest out rest /\ fill + len out <= cap.
 Proof.
-  intros Hf Hc H. unfold encode_call in H. assert (cap <? 4 = false) as E by lia. rewrite E in H.
-  destruct (encode_loop_spec steps fill cap out rest Hf H) as (H1 & H2 & _). split; assumption.
+  intros Hf Hc H. destruct (encode_call_inv _ _ _ _ _ H) as (_ & rest0 & Hl & ->).
+  destruct (encode_loop_spec steps fill cap out rest0 Hf Hl) as (H1 & H2 & _).
+  rewrite then_rest_drop_empty. split; assumption.
 Qed.
 
 Lemma encode_call_ok_form steps fill cap out rest r' :
@@ -119,8 +183,22 @@ Lemma encode_call_progress steps fill cap out rest :
   fill + 4 <= cap -> steps <> [] -> encode_call steps fill cap = Ok (out, rest) ->
   out <> [] \/ (length rest < length steps)%nat.
 Proof.
-  intros Hroom Hne H. unfold encode_call in H. assert (cap <? 4 = false) as E by lia. rewrite E in H.
-  eapply encode_loop_progress; eassumption.
+  intros Hroom Hne H. destruct (encode_call_inv _ _ _ _ _ H) as (_ & rest0 & Hl & ->).
+  destruct (encode_loop_progress steps fill cap out rest0 Hroom Hne Hl) as [?|?]; [left; assumption|].
+  right. pose proof (length_drop_empty rest0). lia.
+Qed.
+
+(* once every byte of the packet is out, the encoder reports Complete (what /repo commit 00b5d35 establishes:
+   before it, a trailing empty string / empty payload kept the packet "Full" when the buffer filled up
+   right before it) *)
+Lemma encode_call_complete steps fill cap out rest :
+  encode_call steps fill cap = Ok (out, rest) -> flatten steps = Ok out -> rest = [].
+Proof.
+  intros H Hall. destruct (encode_call_inv _ _ _ _ _ H) as (_ & rest0 & Hl & ->).
+  pose proof (encode_loop_flatten _ _ _ _ _ Hl) as E. rewrite Hall in E. unfold then_rest in E.
+  destruct (flatten rest0) as [r'| |] eqn:Hr; cbn [obind] in E; try discriminate.
+  injection E as E. rewrite <- (app_nil_r out) in E at 1. apply app_inv_head in E. subst r'.
+  apply flatten_nil_drop_empty. exact Hr.
 Qed.
 
 (* any sequence of calls (any fills and capacities) that ends with an empty queue *)
@@ -134,7 +212,7 @@ Lemma enc_run_flatten steps bs : enc_run steps bs -> flatten steps = Ok bs.
 Proof.
   induction 1 as [|steps fill cap out rest outs Hf Hc Hcall Hrun IH].
   - reflexivity.
-  - eapply encode_call_ok_form; eassumption.
+  - exact (encode_call_ok_form _ _ _ _ _ _ Hf Hc Hcall IH).
 Qed.
 
 (* the facade's driver loop (Steps.encode_seq) *)
@@ -146,19 +224,19 @@ Proof.
   destruct (match bufs with b :: _ => b | [] => last end) as [cap fill0].
   set (fill := N.min fill0 cap) in *.
   destruct (encode_call steps fill cap) as [[out rest]| |] eqn:Hcall; cbn [obind] in H; try discriminate.
-  assert (4 <= cap) as Hc. { unfold encode_call in Hcall. destruct (cap <? 4) eqn:E; [discriminate|lia]. }
-  assert (fill <= cap) as Hf by (unfold fill; lia).
+  assert (4 <= cap) as Hc by (apply (encode_call_inv _ _ _ _ _ Hcall)).
+  assert (fill <= cap) as Hf by (unfold fill; mlia).
   destruct rest as [|s rest].
   - injection H as <-. rewrite (encode_call_ok_form _ _ _ _ _ [] Hf Hc Hcall eq_refl). rewrite app_nil_r. reflexivity.
   - destruct (encode_seq f (s :: rest) (tl bufs) last) as [[t|]| |] eqn:Hrec; cbn [obind] in H; try discriminate.
-    injection H as <-. eapply encode_call_ok_form; try eassumption. eapply IH. exact Hrec.
+    injection H as <-. exact (encode_call_ok_form _ _ _ _ _ _ Hf Hc Hcall (IH _ _ _ _ Hrec)).
 Qed.
 
 (* with unlimited room one call writes everything *)
-Lemma encode_call_unfragmented steps : forall bs fill cap,
-  flatten steps = Ok bs -> 4 <= cap -> fill + len bs + 4 <= cap -> encode_call steps fill cap = Ok (bs, []).
+Lemma encode_loop_unfragmented steps : forall bs fill cap,
+  flatten steps = Ok bs -> fill + len bs + 4 <= cap -> encode_loop steps fill cap = Ok (bs, []).
 Proof.
-  intros bs fill cap Hfl Hc Hroom. unfold encode_call. assert (cap <? 4 = false) as -> by lia.
+  intros bs fill cap Hfl Hroom.
   revert bs fill Hfl Hroom. induction steps as [|s steps IH]; intros bs fill Hfl Hroom.
   - cbn in Hfl. injection Hfl as <-. reflexivity.
   - cbn [flatten] in Hfl. destruct (step_bytes s) as [sb| |] eqn:Hs; cbn [obind] in Hfl; try discriminate.
@@ -168,7 +246,14 @@ Proof.
     destruct s as [v|v|v|v|b].
     1-4: rewrite Hs; cbn [obind]; rewrite (IH t (fill + len sb) eq_refl ltac:(lia)); reflexivity.
     cbn [step_bytes] in Hs. injection Hs as <-. cbn zeta.
-    assert (N.min (cap - fill) (len b) = len b) as -> by lia.
+    assert (N.min (cap - fill) (len b) = len b) as -> by mlia.
     assert (len b <? len b = false) as -> by lia.
     rewrite (IH t (fill + len b) eq_refl ltac:(lia)). reflexivity.
+Qed.
+
+Lemma encode_call_unfragmented steps : forall bs fill cap,
+  flatten steps = Ok bs -> 4 <= cap -> fill + len bs + 4 <= cap -> encode_call steps fill cap = Ok (bs, []).
+Proof.
+  intros bs fill cap Hfl Hc Hroom. unfold encode_call. assert (cap <? 4 = false) as -> by lia.
+  rewrite (encode_loop_unfragmented steps bs fill cap Hfl Hroom). reflexivity.
 Qed.
